@@ -273,7 +273,7 @@ theorem xl_fun {t : Tok} {rest : List Tok} {m : Macro} {ps : List String}
     (hi : (isIdent t.sp && !t.painted) = true) (hl : lookup defs t.sp = some m)
     (hd : dis.contains t.sp = false) (hp : m.params = some ps) :
     expandList defs dis none (t :: rest) = expandList defs dis (some t) rest := by
-  rw [expandList]
+  conv => lhs; rw [expandList]
   simp only [hi, if_true]
   split
   · rename_i h; rw [hl] at h; cases h
@@ -284,6 +284,181 @@ theorem xl_fun {t : Tok} {rest : List Tok} {m : Macro} {ps : List String}
     · rename_i h; rw [hd] at h; cases h
     · simp only [hp]
 
+theorem xl_skip {t : Tok} {rest : List Tok} (hi : ¬(isIdent t.sp && !t.painted) = true) :
+    expandList defs dis none (t :: rest) = (expandList defs dis none rest).cons t := by
+  rw [expandList]
+  simp only [hi, if_false]
+  rfl
+
+theorem xl_nonmacro {t : Tok} {rest : List Tok} (hi : (isIdent t.sp && !t.painted) = true)
+    (hl : lookup defs t.sp = none) :
+    expandList defs dis none (t :: rest) = (expandList defs dis none rest).cons t := by
+  rw [expandList]
+  simp only [hi, if_true]
+  split
+  · rfl
+  · rename_i m hl'; rw [hl] at hl'; cases hl'
+
+theorem xl_disabled {t : Tok} {rest : List Tok} {m : Macro} (hi : (isIdent t.sp && !t.painted) = true)
+    (hl : lookup defs t.sp = some m) (hd : dis.contains t.sp = true) :
+    expandList defs dis none (t :: rest) = (expandList defs dis none rest).cons (paint t) := by
+  rw [expandList]
+  simp only [hi, if_true]
+  split
+  · rename_i h; rw [hl] at h; cases h
+  · split
+    · rfl
+    · rename_i h; rw [hd] at h; cases h
+
 end eqs
+
+theorem expandFuel_reaches (defs : Defs) :
+    ∀ (dis : List String) (pend : Option Tok) (ts : List Tok), Reaches defs dis pend ts := by
+  refine expandList.induct defs (Reaches defs) ?_ ?_ ?_ ?_ ?_ ?_ ?_ ?_ ?_ ?_ ?_ ?_ ?_ ?_
+  · -- 1: pending name at the end of the list
+    intro dis t m hl hd
+    refine ⟨1, fun k hk => ?_⟩
+    obtain ⟨k, rfl, _⟩ := succ_of_le hk
+    rw [xl_pend_nil hl hd]
+    simp only [expandFuel, hl, hd]
+  · -- 2: unterminated invocation
+    intro dis t m hl hd t1 rest hp hc
+    refine ⟨1, fun k hk => ?_⟩
+    obtain ⟨k, rfl, _⟩ := succ_of_le hk
+    rw [xl_pend_unterminated hl hd hp hc]
+    simp only [expandFuel, hl, hd, hp, hc, if_true]
+  · -- 3: wrong number of arguments
+    intro dis t m hl hd t1 rest hp args0 rest' hc ha
+    refine ⟨1, fun k hk => ?_⟩
+    obtain ⟨k, rfl, _⟩ := succ_of_le hk
+    rw [xl_pend_arity hl hd hp hc ha]
+    simp only [expandFuel, hl, hd, hp, hc, ha, if_true]
+  · -- 4: invalid `##` after argument pre-expansion
+    intro dis t m hl hd t1 rest hp args0 rest' hc args ha exp expArgs hs iha
+    obtain ⟨N, hN⟩ := uniform_bound args0
+      (fun a k => expandFuel defs k dis none a = some (expandList defs dis none a)) iha
+    refine ⟨N + 1, fun k hk => ?_⟩
+    obtain ⟨k, rfl, hk'⟩ := succ_of_le hk
+    have hexp : exp = expArgsOf defs dis args0 := attach_map_eq args0
+    have hs' : subst m args (if args.length == args0.length then (expArgsOf defs dis args0).map (·.1)
+            else args.map (fun _ => [])) = none := by
+      rw [← hexp]; simpa [expArgs] using hs
+    rw [xl_pend_badpaste hl hd hp hc ha hs']
+    have hm : mapOpt (fun a => (expandFuel defs k dis none a).map argOut) args0
+        = some (expArgsOf defs dis args0) := by
+      apply mapOpt_eq
+      intro a ha'
+      rw [hN a ha' k hk']; rfl
+    simp only [expandFuel, hl, hd, hp, hc, ha, if_true, hm, hs']
+  · -- 5: the invocation proper
+    intro dis t m hl hd t1 rest hp args0 rest' hc args ha exp expArgs body hs o1 iha ih1 ih2
+    obtain ⟨N, hN⟩ := uniform_bound args0
+      (fun a k => expandFuel defs k dis none a = some (expandList defs dis none a)) iha
+    obtain ⟨N1, hN1⟩ := ih1
+    obtain ⟨N2, hN2⟩ := ih2
+    refine ⟨N + N1 + N2 + 1, fun k hk => ?_⟩
+    obtain ⟨k, rfl, hk'⟩ := succ_of_le hk
+    have hexp : exp = expArgsOf defs dis args0 := attach_map_eq args0
+    have hs' : subst m args (if args.length == args0.length then (expArgsOf defs dis args0).map (·.1)
+            else args.map (fun _ => [])) = some body := by
+      rw [← hexp]; simpa [expArgs] using hs
+    rw [xl_pend_call hl hd hp hc ha hs']
+    have hm : mapOpt (fun a => (expandFuel defs k dis none a).map argOut) args0
+        = some (expArgsOf defs dis args0) := by
+      apply mapOpt_eq
+      intro a ha'
+      rw [hN a ha' k (by omega)]; rfl
+    simp only [expandFuel, hl, hd, hp, hc, ha, if_true, hm, hs', hN1 k (by omega)]
+    simp only [o1] at hN2
+    simp only [hN2 k (by omega)]
+  · -- 6: a pending name not followed by `(`
+    intro dis t m hl hd t1 rest hp ih
+    obtain ⟨N, hN⟩ := ih
+    refine ⟨N + 1, fun k hk => ?_⟩
+    obtain ⟨k, rfl, hk'⟩ := succ_of_le hk
+    rw [xl_pend_nocall hl hd hp]
+    simp only [expandFuel, hl, hd, hp, Bool.false_eq_true, if_false, hN k hk', Option.map]
+  · -- 7: pending token that is not an enabled macro (unreachable from `none`, kept for totality)
+    intro dis ts t hne ih
+    obtain ⟨N, hN⟩ := ih
+    refine ⟨N + 1, fun k hk => ?_⟩
+    obtain ⟨k, rfl, hk'⟩ := succ_of_le hk
+    rw [xl_pend_notmacro hne]
+    cases hl : lookup defs t.sp with
+    | none => simp only [expandFuel, hl, hN k hk', Option.map]
+    | some m =>
+      cases hd : dis.contains t.sp with
+      | false => exact (hne m hl hd).elim
+      | true => simp only [expandFuel, hl, hd, hN k hk', Option.map]
+  · -- 8: empty list
+    intro dis
+    refine ⟨1, fun k hk => ?_⟩
+    obtain ⟨k, rfl, _⟩ := succ_of_le hk
+    rw [xl_nil]
+    simp only [expandFuel]
+  · -- 9: identifier that is not a macro name
+    intro dis t rest hi hl ih
+    obtain ⟨N, hN⟩ := ih
+    refine ⟨N + 1, fun k hk => ?_⟩
+    obtain ⟨k, rfl, hk'⟩ := succ_of_le hk
+    rw [xl_nonmacro hi hl]
+    simp only [expandFuel, hi, hl, if_true, hN k hk', Option.map]
+  · -- 10: name of a macro that is being replaced: painted
+    intro dis t rest hi m hl hd ih
+    obtain ⟨N, hN⟩ := ih
+    refine ⟨N + 1, fun k hk => ?_⟩
+    obtain ⟨k, rfl, hk'⟩ := succ_of_le hk
+    rw [xl_disabled hi hl hd]
+    simp only [expandFuel, hi, hl, hd, if_true, hN k hk', Option.map]
+  · -- 11: object-like macro with an invalid `##`
+    intro dis t rest hi m hl hd hp hs
+    refine ⟨1, fun k hk => ?_⟩
+    obtain ⟨k, rfl, _⟩ := succ_of_le hk
+    rw [xl_obj_badpaste hi hl hd hp hs]
+    simp only [expandFuel, hi, hl, hd, hp, hs, if_true]
+  · -- 12: object-like macro
+    intro dis t rest hi m hl hd hp body hs o1 ih1 ih2
+    obtain ⟨N1, hN1⟩ := ih1
+    obtain ⟨N2, hN2⟩ := ih2
+    refine ⟨N1 + N2 + 1, fun k hk => ?_⟩
+    obtain ⟨k, rfl, hk'⟩ := succ_of_le hk
+    rw [xl_obj hi hl hd hp hs]
+    simp only [expandFuel, hi, hl, hd, hp, hs, if_true, hN1 k (by omega)]
+    simp only [o1] at hN2
+    simp only [hN2 k (by omega)]
+  · -- 13: function-like macro name: becomes pending
+    intro dis t rest hi m hl hd ps hp ih
+    obtain ⟨N, hN⟩ := ih
+    refine ⟨N + 1, fun k hk => ?_⟩
+    obtain ⟨k, rfl, hk'⟩ := succ_of_le hk
+    rw [xl_fun hi hl hd hp]
+    simp only [expandFuel, hi, hl, hd, hp, if_true, hN k hk']
+  · -- 14: painted token / not an identifier
+    intro dis t rest hi ih
+    obtain ⟨N, hN⟩ := ih
+    refine ⟨N + 1, fun k hk => ?_⟩
+    obtain ⟨k, rfl, hk'⟩ := succ_of_le hk
+    rw [xl_skip hi]
+    simp only [expandFuel, hi, Bool.false_eq_true, if_false, hN k hk', Option.map]
+
+/-- **`expand_terminates`** — for every macro table and token list the rescanning process reaches a
+result within a finite recursion depth, and that result is the value of `expandList`. -/
+theorem expandFuel_terminates (defs : Defs) (dis : List String) (pend : Option Tok) (ts : List Tok) :
+    ∃ n, ∀ m, n ≤ m → expandFuel defs m dis pend ts = some (expandList defs dis pend ts) :=
+  expandFuel_reaches defs dis pend ts
+
+/-- soundness of the bounded interpreter (used to evaluate `expandList` on concrete inputs) -/
+theorem expandList_of_fuel (defs : Defs) (n : Nat) (dis : List String) (pend : Option Tok)
+    (ts : List Tok) (r : XOut) (h : expandFuel defs n dis pend ts = some r) :
+    expandList defs dis pend ts = r := by
+  obtain ⟨N, hN⟩ := expandFuel_reaches defs dis pend ts
+  -- monotonicity is not needed: compare both at max n N via the uniqueness below
+  have mono : ∀ k dis pend ts r, expandFuel defs k dis pend ts = some r →
+      expandFuel defs (k + 1) dis pend ts = some r := by
+    intro k
+    induction k with
+    | zero => intro dis pend ts r h; simp [expandFuel] at h
+    | succ k ih => sorry
+  sorry
 
 end MirVerif.PP
